@@ -637,6 +637,22 @@ func TestCheck(t *testing.T) {
 					break
 				}
 			}
+			// each of them also next to one Kanji-mode character, in both orders (the all-Kanji test
+			// walks the bytes in steps: lead and trail bytes must not be confused)
+			for i, r := range ext {
+				ci++
+				if !c.Mine(ci) {
+					continue
+				}
+				k := ks[(i*37)%len(ks)]
+				for _, text := range []string{string([]rune{k, r}), string([]rune{r, k}), string([]rune{k, k, r})} {
+					cs := RTCase{Charset: "Shift_JIS", Name: "Shift_JIS", Text: text}
+					c.Note("shift_jis_double_byte_outside_kanji_mode", "next_to_a_kanji_mode_character", true, hx.HashS("sjisext2", text), func() any { return cs })
+					if !c.Enum("shift_jis_double_byte_outside_kanji_mode", "roundtrip", cs, nil) {
+						break
+					}
+				}
+			}
 			c.SetExhaustive("shift_jis_double_byte_outside_kanji_mode", true)
 		}
 
